@@ -154,6 +154,84 @@ drv_keyres(int argc, char **argv)
                         sec_add(ks, IMB_KASUMI_KEY_SCHED_SIZE(M), "KASUMI key schedule");
                         scan_and_log("kasumi_init_f9_key_sched", 16);
                 }
+
+                /* ---- direct cipher / authentication calls (C13: "once an API call returns and no job remains in flight") ---- */
+                {
+                        DECLARE_ALIGNED(static uint8_t ks[4096], 64);
+                        DECLARE_ALIGNED(static uint8_t text[512], 64);
+                        DECLARE_ALIGNED(static uint8_t outb[512], 64);
+                        DECLARE_ALIGNED(uint8_t iv[32], 16);
+                        uint32_t tag32 = 0;
+                        static const int tls[] = { 1, 15, 16, 33, 64, 100, 255, 256 };
+                        const int tl = tls[it % 8];
+                        hx_fill(&g, text, sizeof(text));
+                        hx_fill(&g, iv, sizeof(iv));
+                        /* ZUC-EEA3 / EIA3, one buffer: raw key */
+                        sec_reset();
+                        sec_add(key, 16, "raw ZUC key");
+                        sec_add(text, (size_t) tl, "plaintext");
+                        hx_call((void *) M->eea3_1_buffer, 5, (uint64_t) key, (uint64_t) iv, (uint64_t) text, (uint64_t) outb, (uint64_t) tl);
+                        scan_and_log("direct_zuc_eea3_1", tl);
+                        sec_reset();
+                        sec_add(key, 16, "raw ZUC key");
+                        hx_call((void *) M->eia3_1_buffer, 5, (uint64_t) key, (uint64_t) iv, (uint64_t) text, (uint64_t) (tl * 8), (uint64_t) &tag32);
+                        scan_and_log("direct_zuc_eia3_1", tl);
+                        /* SNOW3G F8 / F9, one buffer: key schedule */
+                        IMB_SNOW3G_INIT_KEY_SCHED(M, key, (snow3g_key_schedule_t *) ks);
+                        sec_reset();
+                        sec_add(key, 16, "raw SNOW3G key");
+                        sec_add(text, (size_t) tl, "plaintext");
+                        hx_call((void *) M->snow3g_f8_1_buffer, 5, (uint64_t) ks, (uint64_t) iv, (uint64_t) text, (uint64_t) outb, (uint64_t) tl);
+                        scan_and_log("direct_snow3g_f8_1", tl);
+                        sec_reset();
+                        sec_add(key, 16, "raw SNOW3G key");
+                        hx_call((void *) M->snow3g_f9_1_buffer, 5, (uint64_t) ks, (uint64_t) iv, (uint64_t) text, (uint64_t) (tl * 8), (uint64_t) &tag32);
+                        scan_and_log("direct_snow3g_f9_1", tl);
+                        /* KASUMI F8 / F9 */
+                        IMB_KASUMI_INIT_F8_KEY_SCHED(M, key, (kasumi_key_sched_t *) ks);
+                        sec_reset();
+                        sec_add(key, 16, "raw KASUMI key");
+                        sec_add(ks, IMB_KASUMI_KEY_SCHED_SIZE(M), "KASUMI key schedule");
+                        sec_add(text, (size_t) tl, "plaintext");
+                        {
+                                uint64_t iv64;
+                                memcpy(&iv64, iv, 8);
+                                hx_call((void *) M->f8_1_buffer, 5, (uint64_t) ks, iv64, (uint64_t) text, (uint64_t) outb, (uint64_t) tl);
+                        }
+                        scan_and_log("direct_kasumi_f8_1", tl);
+                        IMB_KASUMI_INIT_F9_KEY_SCHED(M, key, (kasumi_key_sched_t *) ks);
+                        sec_reset();
+                        sec_add(key, 16, "raw KASUMI key");
+                        sec_add(ks, IMB_KASUMI_KEY_SCHED_SIZE(M), "KASUMI key schedule");
+                        hx_call((void *) M->f9_1_buffer, 4, (uint64_t) ks, (uint64_t) text, (uint64_t) tl, (uint64_t) &tag32);
+                        scan_and_log("direct_kasumi_f9_1", tl);
+                        /* GHASH one-shot: hash key tables */
+                        IMB_GHASH_PRE(M, key, &gk);
+                        sec_reset();
+                        sec_add(key, 16, "GHASH key");
+                        sec_add(&gk, sizeof(gk), "GHASH key data");
+                        hx_call((void *) M->ghash, 5, (uint64_t) &gk, (uint64_t) text, (uint64_t) tl, (uint64_t) outb, (uint64_t) 16);
+                        scan_and_log("direct_ghash", tl);
+                        /* one-block CFB: round keys, plaintext */
+                        {
+                                DECLARE_ALIGNED(uint8_t ek[240], 16);
+                                DECLARE_ALIGNED(uint8_t dk[240], 16);
+                                IMB_AES_KEYEXP_128(M, key, ek, dk);
+                                sec_reset();
+                                sec_add(key, 16, "raw key");
+                                sec_add(ek, 176, "expanded key");
+                                sec_add(text, 16, "plaintext");
+                                hx_call((void *) M->aes128_cfb_one, 5, (uint64_t) outb, (uint64_t) text, (uint64_t) iv, (uint64_t) ek, (uint64_t) (1 + tl % 16));
+                                scan_and_log("direct_cfb128_one", 1 + tl % 16);
+                                IMB_AES_KEYEXP_256(M, key, ek, dk);
+                                sec_reset();
+                                sec_add(key, 32, "raw key");
+                                sec_add(ek, 240, "expanded key");
+                                sec_add(text, 16, "plaintext");
+                                hx_call((void *) M->aes256_cfb_one, 5, (uint64_t) outb, (uint64_t) text, (uint64_t) iv, (uint64_t) ek, (uint64_t) (1 + tl % 16));
+                                scan_and_log("direct_cfb256_one", 1 + tl % 16);
+                        }
+                }
         }
         tr_begin("KeyResEnd");
         tr_int("n", ncalls);
